@@ -26,6 +26,7 @@ import (
 	"os"
 	"path/filepath"
 	"slices"
+	"sort"
 	"strings"
 
 	"github.com/fluhus/biostuff/formats/bed"
@@ -760,6 +761,30 @@ func runStreamC06(c *Ctx, f *streamFmt) {
 		}
 	}
 
+	// 4b. many small records, stream longer than the readers' buffers: records
+	// yielded early are retained by the harness until the end of the iteration
+	for _, total := range []int{6000, 40000, 140000} {
+		if f.name == "newick" && total > 40000 {
+			continue
+		}
+		d := manyRecordsText(c, f.name, total)
+		if d == nil {
+			continue
+		}
+		f.runSched(c, d, nil, false, "whole", "input/many-records")
+		f.runSched(c, d, []int{4096}, true, "bufio-4096", "input/many-records")
+		if total <= 40000 {
+			ones := make([]int, len(d))
+			for i := range ones {
+				ones[i] = 1
+			}
+			f.runSched(c, d, ones, false, "one-byte", "input/many-records")
+		}
+		if !f.readOnly {
+			c.Run(f.kFile, f.withOracle(L(B(d), I(1)), d), true, f.name+"/file-many-records")
+		}
+	}
+
 	// 4. long inputs: chunk sizes around bufio's 4096-byte buffer
 	for i := 0; i < c.Pick(2, 8); i++ {
 		var d []byte
@@ -930,8 +955,88 @@ func runStreamC07(c *Ctx, f *streamFmt) {
 		}
 	}
 
+	// 3b. one long line between short records: faults inside the long line, at the
+	// buffer boundaries and near the end (a reader that assembles long lines piecewise
+	// can lose the error or deliver a record built from the truncated line)
+	for _, ln := range []int{5000, 9000, 70000} {
+		if f.name == "newick" && ln > 9000 {
+			continue
+		}
+		d := streamLongLine(c, f.name, ln)
+		if d == nil {
+			continue
+		}
+		ks := map[int]bool{}
+		for _, b := range []int{4096, 8192, 65536} {
+			for _, dk := range []int{-1, 0, 1, 2, 100} {
+				ks[b+dk] = true
+			}
+		}
+		for _, dk := range []int{0, 1, 2, 3, 10, ln / 2} {
+			ks[len(d)-dk] = true
+		}
+		for i := 0; i < 12; i++ {
+			ks[c.Intn(len(d)+1)] = true
+		}
+		for _, k := range sortedKeys(ks) {
+			if k >= 0 && k <= len(d) {
+				faultCase(d, k, k%2 == 0, "input/long-line")
+			}
+		}
+	}
+
 	if f.readOnly {
 		return
+	}
+
+	// 4b. writers with long records: limits around the buffer sizes a buffering
+	// writer would use and just before the end of the output
+	for _, ln := range []int{5000, 70000} {
+		if f.name == "newick" && ln > 9000 {
+			continue
+		}
+		long := c.RandBytes(ln, []byte("ACGTacgt"))
+		var rec Val
+		switch f.name {
+		case "fasta":
+			rec = vFasta([]byte("long"), long)
+		case "fastq":
+			rec = fqRecVal([]byte("long"), long, bytes.Repeat([]byte("I"), ln))
+		case "sam":
+			rec = samVal(&sam.SAM{Qname: "long", Flag: 4, Rname: "*", Cigar: "*", Rnext: "*", Seq: string(long), Qual: "*", Tags: map[string]any{"NM": 1}})
+		case "bed":
+			rec = bedVal(&bed.BED{N: 4, Chrom: "c", ChromStart: 1, ChromEnd: 2, Name: string(long)})
+		case "newick":
+			rec = treeVal(&gTree{name: "r", kids: []*gTree{{name: string(long), dist: 1.5}, {name: "x y"}}})
+		default:
+			continue
+		}
+		m, err := f.marshal(rec)
+		if err != nil {
+			continue
+		}
+		ks := map[int]bool{0: true, 1: true}
+		for _, b := range []int{4096, 8192, 65536} {
+			for _, dk := range []int{-1, 0, 1} {
+				ks[b+dk] = true
+			}
+		}
+		for _, dk := range []int{-1, 0, 1, 2, 3, 100, 1000, 4095, 4096, 4097} {
+			ks[len(m)-dk] = true
+		}
+		for i := 0; i < 10; i++ {
+			ks[c.Intn(len(m)+1)] = true
+		}
+		for _, k := range sortedKeys(ks) {
+			if k < 0 || k > len(m)+1 {
+				continue
+			}
+			in := L(rec, I(k))
+			if f.oracle {
+				in.L = append(in.L, f.recOracle(rec))
+			}
+			c.Run(f.kWrite, in, k < len(m), f.name+"/write-fault", "write/long-record")
+		}
 	}
 
 	// 4. writers: every limit 0..len+1 for each record
@@ -1011,4 +1116,13 @@ func streamLongLine(c *Ctx, name string, ln int) []byte {
 		return nil
 	}
 	return buf.Bytes()
+}
+
+func sortedKeys(m map[int]bool) []int {
+	ks := make([]int, 0, len(m))
+	for k := range m {
+		ks = append(ks, k)
+	}
+	sort.Ints(ks)
+	return ks
 }
